@@ -151,3 +151,31 @@ Theorem C07_neighbour_gaps_uniform : forall g prefix bpt input pretext o,
     mid = [g] \/ Proofs.NeighbourGaps.same_neighbours input x mid y.
 Proof. exact Proofs.NeighbourGaps.neighbour_gaps_uniform_gaps. Qed.
 Print Assumptions C07_neighbour_gaps_uniform.
+
+(* THE SECOND SENTENCE for maps PretextView can produce: on every map that tiles
+   the scaffolds it shows (the hypotheses of C02_completion) the third case
+   cannot arise -- a contig no bait found lies beyond the last texel of its
+   scaffold, so the never-found contigs of a scaffold are a suffix of its rows
+   -- and every gap run between two consecutive fragments of an output scaffold
+   is EXACTLY the join gap or EXACTLY the input gap run that separated the same
+   two contigs (same lengths, same types, either reading direction); directly
+   adjacent fragments were directly adjacent in the input; a junction between
+   contigs that were not neighbours in the input carries the join gap. *)
+From Tola Require Proofs.PretextViewGaps.
+Theorem C07_pretextview_gaps : forall g prefix n d input pretext o,
+  0 < d -> d <= n ->
+  Forall Proofs.Completion.input_ok input ->
+  NoDup (map fst input) ->
+  NoDup (map key_of (Model.RemapSpec.in_frags input)) ->
+  Forall (fun f => f_tags f = []) (Model.RemapSpec.in_frags input) ->
+  Forall (fun p => exists b t, snd p = RF b :: t) pretext ->
+  Forall (fun b => f_tags b = [] /\ (f_strand b = 1 \/ f_strand b = -1)
+                   /\ In (f_name b) (map fst input)) (Proofs.CoreKept.baits_of pretext) ->
+  Forall (Proofs.Completion.scaffold_tiled n d (Proofs.CoreKept.baits_of pretext)) input ->
+  remap repaired g prefix (n, d) input pretext = Ok o ->
+  forall a sc x mid y,
+    In a (out_asms o) -> In sc (oa_scaffolds a) ->
+    Proofs.NeighbourGaps.consecutive (sc_rows sc) x mid y ->
+    mid = [g] \/ Proofs.NeighbourGaps.same_neighbours input x mid y.
+Proof. exact Proofs.PretextViewGaps.pretextview_gaps. Qed.
+Print Assumptions C07_pretextview_gaps.
